@@ -18,7 +18,8 @@ PV = ("Call", ("Var", "p"), [V])
 E_CONST = K
 E_USE = ("Tuple", [V, K])
 
-HELPERS = ("Raw", "fun p(x) { println(string_repr(x)) }\nfun ap(f, x) { f(x) }\nfun ap0(f) { f() }")
+HELPERS = ("Raw", "fun p(x) { println(string_repr(x)) }\nfun ap(f, x) { f(x) }\nfun ap0(f) { f() }\n"
+                  "fun apt<T>(f: Fun<(T), Unit>, x: T) { f(x) }")
 GLOBAL_V = ("Fun", "v", False, None, [], [("x", None)], None, [("Var", "x")])
 
 
@@ -31,6 +32,16 @@ def leaves(quick):
     return ls
 
 
+def match_stmts(b, e):
+    """Match statements over body b: the payload `v` of an earlier case shadows the outer `v`, which a later case (without a payload,
+    with a payload of another name, or with its own payload `v`) uses again; in two of the three the later case is the one that runs."""
+    return [
+        ("Match", ("Call", ("Var", "Some"), [e]), [(("Some", ("Sym", "v")), b, True), (("None", None), [PV], True)]),
+        ("Match", ("Call", ("Var", "Err"), [e]), [(("Ok", ("Sym", "v")), [PV], True), (("Err", ("Sym", "v")), b, True)]),
+        ("Match", ("Call", ("Var", "Err"), [e]), [(("Ok", ("Sym", "v")), b, True), (("Err", ("Sym", "w")), [PV], True)]),
+    ]
+
+
 def block_stmts(bodies):
     """Every block-introducing statement over the given bodies."""
     out = []
@@ -39,8 +50,27 @@ def block_stmts(bodies):
         out.append(("Call", ("Var", "ap0"), [("Lambda", [], None, b)]))
         for e in (E_CONST, E_USE):
             out.append(("For", ("Sym", "v"), ("List", [e]), b))
-            out.append(("Match", ("Call", ("Var", "Some"), [e]), [(("Some", ("Sym", "v")), b, True), (("None", None), [], True)]))
-            out.append(("Call", ("Var", "ap"), [("Lambda", [("v", None)], None, b), e]))
+        # the first match form with both scrutinee payloads, the other two with one each
+        out.append(match_stmts(b, E_CONST)[0])
+        out.extend(match_stmts(b, E_USE))
+        # a closure literal passed to an untyped parameter and to a parameter with a function type (checked against that type)
+        out.append(("Call", ("Var", "ap"), [("Lambda", [("v", None)], None, b), E_USE]))
+        out.append(("Call", ("Var", "apt"), [("Lambda", [("v", None)], None, b), E_CONST]))
+    return out
+
+
+def nested_match_stmts():
+    """Match statements (minimal bodies) inside a for body, a closure with a parameter, a capturing closure and a match case,
+    and after each kind of let: the outer binder of the shadowed name is then a for variable, closure parameter, payload, let."""
+    out = []
+    for e in (E_CONST, E_USE):
+        for m in match_stmts([PV], e):
+            inner = with_prints([m])
+            out.append([("For", ("Sym", "v"), ("List", [E_USE]), inner)])
+            out.append([("Call", ("Var", "apt"), [("Lambda", [("v", None)], None, inner), E_CONST])])
+            out.append([("Call", ("Var", "ap0"), [("Lambda", [], None, inner)])])
+            out.append([("Match", ("Call", ("Var", "Some"), [E_USE]), [(("Some", ("Sym", "v")), inner, True), (("None", None), [PV], True)])])
+            out.append([("Let", ("Destructure", ["v", "w"]), None, ("Tuple", [E_USE, K])), m])
     return out
 
 
@@ -59,13 +89,14 @@ def bodies0(quick):
     return [[a] for a in L] + [[a, b] for a in L for b in L]
 
 
-def bodies_over(blocks, L, pair_leaves):
+def bodies_over(blocks, L, pair_leaves, both_orders=True):
     """Sequences of <=2 statements with at most one block statement."""
     out = [[b] for b in blocks]
     for b in blocks:
         for l in pair_leaves:
             out.append([l, b])
-            out.append([b, l])
+            if both_orders:
+                out.append([b, l])
     return out
 
 
@@ -75,7 +106,7 @@ def programs(quick):
     inner0 = [with_prints(b) for b in b0]
     blocks1 = block_stmts(inner0)
     pair_leaves = [L[1]] if quick else L
-    b1 = b0 + bodies_over(blocks1, L, pair_leaves)
+    b1 = b0 + bodies_over(blocks1, L, pair_leaves, both_orders=not quick) + nested_match_stmts()
     all_containers = ["top-block", "fun-param", "top-level", "top-block+global-fun", "top-level+global-fun", "method-receiver", "method-param"]
     if quick:
         for cont in ["top-block", "fun-param", "top-level"]:
@@ -85,7 +116,7 @@ def programs(quick):
             yield "top-block+global-fun", with_prints(body)
         # method receiver / parameter containers over the leaf bodies only
         for cont in ("method-receiver", "method-param"):
-            for body in b0:
+            for body in b0 + [[m] for e in (E_CONST, E_USE) for m in match_stmts([PV], e)]:
                 yield cont, with_prints(body)
         return
     for cont in all_containers:
